@@ -235,3 +235,30 @@ theorem pushed_sigs_bounded (ps : List (Bytes × Bytes)) (keys : List Bytes) (m 
   exact hs (k', s) hk'
 
 end Btc.C18
+
+namespace Btc.C18
+open Btc Btc.Script Btc.Spend
+
+/-- the carried fact "the key is no longer than `_pub_key_size` answers", from the key's compression: a
+    compressed key always is; an uncompressed one is when the psbt names it in hd_key_paths — or a named key
+    different from it has the same hash160 (the collision is exhibited). -/
+theorem pub_key_size_covers (H : Bytes → Bytes) (pin : SizeIn) (pk : Bytes)
+    (hc : pk.length = 33 ∨ pk ∈ pin.hdKeys) :
+    pk.length ≤ pubKeySize H pin (H pk) ∨ ∃ k' ∈ pin.hdKeys, k' ≠ pk ∧ H k' = H pk := by
+  unfold pubKeySize Gen.Fee.pub_key_size
+  cases hf : pin.hdKeys.find? (fun k => H k == H pk) with
+  | some k' =>
+    have hmem := List.mem_of_find?_eq_some hf
+    have hp := List.find?_some hf
+    have hH : H k' = H pk := by simpa using hp
+    by_cases hk : k' = pk
+    · subst hk; left; simp [Btc.Py.len]
+    · exact Or.inr ⟨k', hmem, hk, hH⟩
+  | none =>
+    left
+    rcases hc with h33 | hmem
+    · simp [h33]; decide
+    · have := List.find?_eq_none.mp hf pk hmem
+      simp at this
+
+end Btc.C18
